@@ -119,11 +119,12 @@ PROPS = {
         ],
     ),
     "C20": dict(
-        explanation="the real main of cmd/par on an argument vector chosen by the solver, library entry points stubbed with symbolic outcomes; library side: needed-but-impossible repairs are classified",
+        explanation="the real main of cmd/par on an argument vector chosen by the solver, library entry points stubbed with symbolic outcomes; library side: needed-but-impossible repairs are classified, and a nil error from Repair means every file is restored (the C01 scenario harness, which is what status 0 of `par r` rests on)",
         assumptions=["the flag package runs as real SSA; FlagSet.PrintDefaults and fmt printing are no-ops; -cpuprofile (pprof, signal handler) is outside the claim",
                      "counterexamples of C20_main are replayed by building the par binary and running it on real files in a scratch directory"],
         jobs=[
             J("cmd/par", "C20_main", replay="c20", no_native=True, bound="commands c/create/v/verify/r/repair in mixed case, bogus, none; index names s.par, s.par2, dir/s.par2, other / no extension, none; flags none, -g 2, an unknown flag before or after the command; 0..1 data files; library outcome nil / needed-but-impossible / other error; unusable and usable counts 0..2", must_reach=["usage", "verify", "repair"]),
+            J("par2", "C01_repair_one", bound="1 file of 4/5/8 bytes, slice 4, 2 recovery blocks, goroutines 1..2, damage: intact, missing, one slice overwritten, 1..4 bytes inserted at the front, truncated at every length, 1..2 bytes appended, arbitrary content of length 0..len+1; double-check on/off", must_reach=["repaired"]),
             J("par2", "C20_par2_classify", bound="PAR2 library: every file missing and 0..1 of 1 recovery files left: Repair's error is classified as needed-but-impossible"),
         ],
     ),
@@ -159,6 +160,7 @@ PROPS = {
         jobs=[
             J("par2", "C16_crc_window", bound="window sizes 4,8,12,16,20,32,64,252,256; all windows of n+1 symbolic bytes"),
             J("par2", "C16_crc_window_big", tier="thorough", bound="window sizes 24,28,100,128,256,512,1000,2000"),
+            J("par2", "C16_locmap", must_reach=["hit"], bound="the real checksumShardLocationMap.put/get with 2..3 registered slices of 8 symbolic bytes, arbitrary (data-independent) 32-bit CRC values incl. equal CRCs with different content, one symbolic query window"),
             J("par2", "C16_search_arbitrary", bound="1 file of 4/5/8 bytes, slice 4; insertion of 1..4 bytes, truncation at every length, appended bytes, one overwritten slice"),
             J("par2", "C16_search_sym", tier="thorough", bound="1 file of 4/5 fully symbolic bytes; insertion, truncation, append; oracle = slices surviving at a non-overlapped offset", timeout=3000),
         ],
@@ -170,7 +172,8 @@ PROPS = {
         jobs=[
             J("par2", "C01_repair_one", bound="1 file of 4/5/8 bytes, slice 4, 2 recovery blocks, goroutines 1..2, damage: intact, missing, one slice overwritten, 1..4 bytes inserted at the front, truncated at every length, 1..2 bytes appended, arbitrary content of length 0..len+1; double-check on/off", must_reach=["repaired"]),
             J("par2", "C01_repair_two", bound="2 files of 4 and 5 bytes, 2 blocks; per-file damage as above (first file: 4 kinds, second: 2) or the two files swapped", must_reach=["repaired"]),
-            J("par2", "C01_repair_sym", tier="thorough", bound="1 file of 4/5 fully symbolic bytes, 2 blocks, 6 structured damage kinds", timeout=5000),
+            J("par2", "C16_locmap", must_reach=["hit"], bound="the real checksumShardLocationMap.put/get with 2..3 registered slices of 8 symbolic bytes, arbitrary (data-independent) 32-bit CRC values incl. equal CRCs with different content, one symbolic query window"),
+            J("par2", "C01_repair_sym", tier="thorough", bound="1 file of 4/5 fully symbolic bytes, 1 block, 6 structured damage kinds (2 blocks: does not finish within 25 min, outside the claim)", timeout=5000),
         ],
     ),
     "C02": dict(
@@ -189,6 +192,7 @@ PROPS = {
             J("par2", "C03_verify_one", bound="1 file of 4/5/8 bytes, 1 block present or deleted, 6 structured damage kinds"),
             J("par2", "C03_verify_two", bound="2 files of 4 and 5 bytes, 2 blocks, per-file damage or files swapped"),
             J("par2", "C03_verify_arbitrary", bound="1 file of 4/5 bytes, arbitrary current content"),
+            J("par2", "C16_locmap", must_reach=["hit"], bound="the real checksumShardLocationMap.put/get with 2..3 registered slices of 8 symbolic bytes, arbitrary (data-independent) 32-bit CRC values incl. equal CRCs with different content, one symbolic query window"),
             J("par2", "C03_verify_sym", tier="thorough", bound="1 file of 4/5 fully symbolic bytes, 6 structured damage kinds (1 symbolic damage byte)", timeout=3000),
         ],
     ),
@@ -207,6 +211,7 @@ PROPS = {
         jobs=[
             J("par2", "C06_layouts", bound="1 file in a sub-directory, 2 blocks with exponent pairs (0,1),(1,0),(2,7),(5,100),(1000,3),(3000,0); index and volume packet order: identity, reversed, rotated, evens-then-odds, duplicated; foreign-set and unknown-type packets interleaved", must_reach=["repaired"]),
             J("par2", "C06_glob", bound="the real defaultFileIO.FindWithPrefixAndSuffix (filepath.Glob, real SSA) on a modelled directory: base names of 1..3 symbolic bytes over { a space - [ ] * ? \\ }"),
+            J("par2", "C06_basename", bound="the real newDecoder + LoadParityData with an index path whose base name is 1..3 symbolic bytes over {x p a r 2 . space}: prefix and suffix handed to the directory search"),
             J("par2", "C06_volume_names", bound="2 files, blocks 0..2 spread over 1..3 volume files named s.<anything>.par2 (spaces, extra dots)"),
         ],
     ),
